@@ -32,6 +32,7 @@ Cfg(x) ==
     [] Mutant = "skipverify-not-forced-off" -> IF c.err = "" THEN [c EXCEPT !.skipVerify = x.insecure] ELSE c
     [] Mutant = "ip-servername-dropped" -> IF c.err = "" /\ x.serverName \in {"ipv4", "ipv6"}
                                            THEN [c EXCEPT !.serverName = "none", !.skipVerify = x.insecure] ELSE c
+    [] Mutant = "reuse-retunes-session" -> IF c.err = "" THEN [c EXCEPT !.tickets = FALSE, !.cache = TRUE] ELSE c
     [] Mutant = "system-mixed-in" -> IF c.err = "" /\ ~c.system /\ x.caPool = "none" THEN [c EXCEPT !.system = TRUE] ELSE c
     [] Mutant = "key-error-swallowed" -> IF c.err \in {"cert", "key"} THEN [Config([x EXCEPT !.certFile = "none", !.certLoaded = "none"]) EXCEPT !.err = ""] ELSE c
     [] Mutant = "loaded-cert-ignored" -> IF x.certFile = "none" THEN Config([x EXCEPT !.certLoaded = "none"]) ELSE c
